@@ -128,7 +128,7 @@ def valueArms (f : DCF) (v l : Val) : String :=
   | .null, _ => "v-null-some"
   | _, .null => "v-some-null"
   | v, l =>
-    if f.dbType = 0 then (if veq v l then "v-plain-eq" else "v-plain-ne")
+    if f.dbType = 0 then (if veq v l then (if v = l then "v-plain-eq" else "v-plain-eq,v-plain-eq-other-bits") else "v-plain-ne")
     else match asF64 v, asF64 l with
       | some a, some b =>
         let d := decode64 f.dbVal
